@@ -6,7 +6,7 @@
    A compressed block is the opaque letter TZ/TL of the input alphabet (CliBase.v): the round trip of
    zlib / LZO with paired persistent state is assumed there and exercised by the correspondence run. *)
 From LV Require Import Dec.CliBase Dec.CliFbProofs Dec.CliDec Dec.CliDecZ Dec.CliMsg Dec.CliInit Dec.RefEnc Dec.RefEncZ
-     Dec.CliRtBase Dec.CliRtSimple Dec.CliRtHextile Dec.CliRtZ Dec.CliCopyProofs Dec.CliRead Dec.CliReqProofs Dec.CliMsgProofs Dec.CliExamples.
+     Dec.CliRtBase Dec.CliRtSimple Dec.CliRtHextile Dec.CliRtZ Dec.CliRtTile Dec.CliRtZrle Dec.CliRtTrle Dec.CliRtTight Dec.CliCopyProofs Dec.CliRead Dec.CliReqProofs Dec.CliMsgProofs Dec.CliExamples.
 Local Open Scope Z_scope.
 
 (* the partial, C-mirroring row writer coincides with the total spec-level blit inside the framebuffer *)
@@ -78,6 +78,69 @@ Theorem C07_roundtrip_ultra : forall s x y w h tgt ts,
   dec_ultra x y w h s (ref_ultra (c_fmt s) tgt ++ ts)
   = Ok tt (set_fb (set_rawsz s cap) (blit_spec (c_fb s) x y tgt)) ts.
 Proof. exact roundtrip_ultra. Qed.
+
+(* ZRLE / TRLE: for every choice oracle - tile sub-encoding (raw, solid, packed palette, plain RLE, palette RLE, TRLE
+   reuse of the previous palette), palette padding, run splitting - the client paints exactly the encoded pixels.
+   [cp_agree f v]: the client's CPIXEL instance [v] (chosen by rfbclient.c from the format) reads the CPIXEL layout
+   the RFC prescribes for [f]; [cp_ok v p]: the pixel value has only the bits that CPIXEL transports.
+   ZRLE additionally needs the tile stream to fit the scratch area (2 x raw size: finding C07-F2 otherwise). *)
+Theorem C07_roundtrip_zrle : forall ch s x y w h tgt ts fresh,
+  st_wf s -> cp_agree (c_fmt s) (variant_of s) -> fixed s 8 = true ->
+  0 <= x -> 0 <= y -> 0 <= w -> 0 <= h -> x + w <= c_w s -> y + h <= c_h s ->
+  rows_wf w h tgt -> Forall (Forall (cp_ok (variant_of s))) tgt ->
+  fresh = negb (zact_get s 0) ->
+  let minsz := w * h * rbytes (variant_of s) * 2 + 4 in
+  let cap := if c_rawsz s <? minsz then minsz else c_rawsz s in
+  zlen (tiles_rows ch 0 (c_fmt s) false 64 (Z.to_nat (h / 64 + 1)) 0 w h tgt 0 []) <= cap - 4 ->
+  dec_zrle x y w h s (ref_zrle ch (c_fmt s) fresh w h tgt ++ ts)
+  = Ok tt (set_fb (zact_set (set_rawsz s cap) 0 true) (blit_spec (c_fb s) x y tgt)) ts.
+Proof. exact roundtrip_zrle. Qed.
+
+Theorem C07_roundtrip_trle : forall ch s x y w h tgt ts,
+  st_wf s -> cp_agree (c_fmt s) (variant_of s) -> fixed s 4 = true ->
+  0 <= x -> 0 <= y -> 0 <= w -> 0 <= h -> x + w <= c_w s -> y + h <= c_h s ->
+  rows_wf w h tgt -> Forall (Forall (cp_ok (variant_of s))) tgt ->
+  let minsz := cTRLE_tile * cTRLE_tile * rbytes (variant_of s) * 2 in
+  let cap := if c_rawsz s <? minsz then minsz else c_rawsz s in
+  dec_trle x y w h s (ref_trle ch (c_fmt s) w h tgt ++ ts)
+  = Ok tt (set_fb (set_rawsz s cap) (blit_spec (c_fb s) x y tgt)) ts.
+Proof. exact roundtrip_trle. Qed.
+
+(* the hypotheses are satisfiable: the baseline client state for 24-in-32 (3-byte CPIXEL), 10-10-10 (4 bytes),
+   RGB565 and BGR233 formats *)
+Example C07_roundtrip_zrle_nonvacuous :
+  let f888 := mkfmt 32 24 false 255 255 255 16 8 0 in
+  let f30 := mkfmt 32 30 false 1023 1023 1023 20 10 0 in
+  let f565 := mkfmt 16 16 false 31 63 31 11 5 0 in
+  let f233 := mkfmt 8 8 false 7 7 3 0 3 6 in
+  cp_agree f888 (variant_of (init_state f888 255 8 8)) /\ cp_agree f30 (variant_of (init_state f30 255 8 8)) /\
+  cp_agree f565 (variant_of (init_state f565 31 8 8)) /\ cp_agree f233 (variant_of (init_state f233 7 8 8)) /\
+  fixed (init_state f888 255 8 8) 8 = true /\ fixed (init_state f888 255 8 8) 4 = true.
+Proof. cbv zeta. repeat split; reflexivity. Qed.
+
+(* Tight: for every choice oracle - fill, basic / explicit copy filter, palette filter (1-bit or 8-bit indices, padded
+   palette), gradient filter, any of the four zlib streams, any stream-reset bits, raw (< 12 bytes) or compressed
+   payload - the client paints exactly the encoded pixels and its four stream states follow the encoder's.
+   [tpix_ok f p]: TPIXEL transports the pixel ([tp_ok]) and its colour components recompose it ([gp_ok]);
+   [gfmt_ok f bypp]: the three colour fields are separate power-of-two fields (needed by the gradient filter of the
+   non-888 formats; trivially true for 888 formats, proved for RGB565: CliRtTight.gfmt_ok_565);
+   w <= 2048: the Tight specification's maximal rectangle width (the client's row buffers). *)
+Theorem C07_roundtrip_tight : forall ch s x y w h tgt ts z0 a b c d,
+  st_wf s -> bypp_ok s -> c_zact s = [z0; a; b; c; d] -> gfmt_ok (c_fmt s) (bypp_of s) ->
+  0 <= x -> 0 <= y -> 1 <= w <= 2048 -> 1 <= h -> x + w <= c_w s -> y + h <= c_h s ->
+  rows_wf w h tgt -> Forall (Forall (tpix_ok (c_fmt s))) tgt ->
+  dec_tight x y w h s (fst (ref_tight ch (c_fmt s) w h tgt [a; b; c; d]) ++ ts)
+  = Ok tt (set_fb (set_zact s (z0 :: snd (ref_tight ch (c_fmt s) w h tgt [a; b; c; d]))) (blit_spec (c_fb s) x y tgt)) ts.
+Proof. exact roundtrip_tight. Qed.
+
+Example C07_roundtrip_tight_nonvacuous :
+  let f888 := mkfmt 32 24 false 255 255 255 16 8 0 in
+  let f565 := mkfmt 16 16 false 31 63 31 11 5 0 in
+  c_zact (init_state f888 255 8 8) = [false; false; false; false; false] /\
+  gfmt_ok f888 4 /\ gfmt_ok f565 2 /\ tpix_ok f888 1193046 /\ tpix_ok f565 43981.
+Proof.
+  cbv zeta. split; [reflexivity|]. split; [exact I|]. split; [exact gfmt_ok_565|]. split; (split; [|split]); vm_compute; intuition congruence.
+Qed.
 
 (* CopyRect: the pixel-by-pixel mirror of CopyRectangleFromRectangle delivers the ORIGINAL source block
    whatever the overlap (all four loop directions) *)
